@@ -48,6 +48,15 @@ func (mbp *multipartBodyProcessor) ProcessRequest(reader io.Reader, v plugintype
 			v.MultipartStrictError().(*collections.Single).Set("1")
 			return err
 		}
+		// FormName and originFileName both swallow the error of parsing Content-Disposition and
+		// answer "": a part whose disposition cannot be parsed (e.g. a parameter given twice)
+		// would be attributed to the empty name and an upload would be taken for a plain field.
+		if cd := p.Header.Get("Content-Disposition"); cd != "" {
+			if _, _, err := mime.ParseMediaType(cd); err != nil {
+				v.MultipartStrictError().(*collections.Single).Set("1")
+				return fmt.Errorf("invalid Content-Disposition of a multipart part: %w", err)
+			}
+		}
 		partName := p.FormName()
 		for key, values := range p.Header {
 			for _, value := range values {
